@@ -569,6 +569,28 @@ func upsertRecordsWhatItReports(c *Ctx, rule string) {
 		c.viol(rule, "anchor-lost:UpsertHash", "", "FSEventHandler.UpsertHash (exported) not found")
 		return
 	}
+	// the test-and-set may live in a method of the registry's own type that UpsertHash forwards to
+	for depth := 0; depth < 3 && len(fd.Body.List) == 1; depth++ {
+		ret, ok := fd.Body.List[0].(*ast.ReturnStmt)
+		if !ok || len(ret.Results) != 1 {
+			break
+		}
+		call, ok := ast.Unparen(ret.Results[0]).(*ast.CallExpr)
+		if !ok {
+			break
+		}
+		fn := calleeOf(info, call)
+		var next *ast.FuncDecl
+		for _, cfd := range allFuncDecls(p) {
+			if fn != nil && info.Defs[cfd.Name] == types.Object(fn) && cfd.Body != nil {
+				next = cfd
+			}
+		}
+		if next == nil {
+			break
+		}
+		fd = next
+	}
 	var hashParam types.Object
 	for _, prm := range paramObjs(info, fd) {
 		if prm != nil {
